@@ -479,7 +479,7 @@ func runTopology(c *Ctx, ti int, r *mon.RNG) {
 	}
 	// roots
 	nRoots := 1 + r.Intn(3)
-	var ents []*gtCert // CA certificates usable as issuers
+	var ents []*gtCert  // CA certificates usable as issuers
 	dotted := ti%7 == 3 // a root that permits ".example.com" (subdomains only) over leaves that are also valid for the bare domain
 	for i := 0; i < nRoots; i++ {
 		g := mkCA("root", fmt.Sprintf("Root%d-%d", ti, i), newKey())
